@@ -4,6 +4,7 @@
 //  - the answers of the tree-pruned queries (findNearestPoint, intersectsRay) for the given query points / rays,
 //  - OrientedBoundingBox(points) and Geo::Point::calcBoundingSphere(points) of the given point clouds.
 // Input (all numbers decimal / %.17g):  MESH nv nf | v x y z | f i j k | N x y z | R ox oy oz dx dy dz | P n x y z ... | END
+//        B r00 .. r22 px py pz sx sy sz | Y ox oy oz dx dy dz     (box/ray test OrientedBoundingBox::intersectsRay alone)
 #include "Simbody.h"
 #include <cstdio>
 #include <iostream>
@@ -30,7 +31,7 @@ static void dumpTree(const Mesh::OBBTreeNode& n) {
 }
 
 int main() {
-    std::string line; Array_<Vec3> verts; Array_<int> faces; Mesh* mesh = 0; int nv = 0, nf = 0;
+    std::string line; Array_<Vec3> verts; Array_<int> faces; Mesh* mesh = 0; int nv = 0, nf = 0; OrientedBoundingBox curBox;
     auto build = [&]() {
         if (mesh || nv == 0) return;
         try { mesh = new Mesh(verts, faces, false); }
@@ -68,6 +69,15 @@ int main() {
             printf("PB"); pbox(bx); printf(" %d\n", inb);
             Geo::Sphere s = Geo::Point::calcBoundingSphere(arr);
             printf("PS"); pv(s.getCenter()); printf(" %.17g\n", s.getRadius());
+        } else if (cmd == "B") {        // an oriented box: rotation (row major, taken as is), origin, size
+            Mat33 R; Vec3 o, sz; for (int i = 0; i < 3; ++i) for (int j = 0; j < 3; ++j) is >> R(i, j);
+            is >> o[0] >> o[1] >> o[2] >> sz[0] >> sz[1] >> sz[2];
+            curBox = OrientedBoundingBox(Transform(Rotation(R, true), o), sz); printf("B"); pbox(curBox); printf("\n");
+        } else if (cmd == "Y") {        // a ray against the current box: OrientedBoundingBox::intersectsRay
+            Vec3 o, d; is >> o[0] >> o[1] >> o[2] >> d[0] >> d[1] >> d[2]; UnitVec3 u(d);
+            printf("Y"); pv(o); pv(Vec3(u)); printf("\n");
+            Real dist = 0; bool hit = curBox.intersectsRay(o, u, dist);
+            printf("BR %d %.17g\n", hit ? 1 : 0, hit ? dist : 0.0);
         } else if (cmd == "END") { build(); printf("END\n"); }
     }
     printf("DONE\n");
